@@ -36,7 +36,7 @@ func (r *Run) intrinsic1(name string, fn *ssa.Function) externalFn {
 			return callSSA(fr.i, fr.caller, 0, target, args, nil)
 		}
 	}
-	if r.cfg.opaque[name] {
+	if r.cfg.opaque[name] || (fn.Pkg != nil && r.cfg.opaquePkg[fn.Pkg.Pkg.Path()] && fn.Name() != "init") {
 		r.cfg.usedStub(name + " (opaque: zero result)")
 		return func(fr *frame, args []value) value {
 			res := fn.Signature.Results()
@@ -306,6 +306,10 @@ func init() {
 			call(fr.i, fr, 0, a[1], nil)
 			return nil
 		},
+		"time.Now": func(r *Run, fr *frame, a []value) value {
+			// the clock is an environment stub: a fixed instant (only used to seed shuffles in the libraries)
+			return zero(fr.fn.Signature.Results().At(0).Type())
+		},
 		"runtime.SetFinalizer": noop,
 		"runtime.KeepAlive":    noop,
 		"os.Exit": func(r *Run, fr *frame, a []value) value {
@@ -435,6 +439,20 @@ func init() {
 			}
 			return concatStr(parts)
 		},
+		"strings.Split": func(r *Run, fr *frame, a []value) value {
+			parts := strings.Split(opaqueText(a[0]), opaqueText(a[1]))
+			out := make([]value, len(parts))
+			for i, p := range parts {
+				out[i] = p
+			}
+			return out
+		},
+		"strings.Count": func(r *Run, fr *frame, a []value) value {
+			return strings.Count(opaqueText(a[0]), opaqueText(a[1]))
+		},
+		"strings.Repeat": func(r *Run, fr *frame, a []value) value {
+			return strings.Repeat(opaqueText(a[0]), int(asInt64(r.concretizeOpt(fr, nil, a[1]))))
+		},
 		"strings.Contains": func(r *Run, fr *frame, a []value) value {
 			return r.strFind(a[0], a[1], 0)
 		},
@@ -492,6 +510,28 @@ func (r *Run) strFind(sv, subv value, mode int) value {
 		res = p.Or(res, at(off))
 	}
 	return fromBoolTerm(res)
+}
+
+// opaqueText: the concrete text of a string; symbolic parts become a placeholder (message texts built
+// from symbolic data are not the subject of any check).
+func opaqueText(v value) string {
+	switch v := v.(type) {
+	case string:
+		return v
+	case *enumStr:
+		return "\x00enum\x00"
+	case *symStr:
+		bs := make([]byte, len(v.b))
+		for i, b := range v.b {
+			if c, ok := b.(uint8); ok {
+				bs[i] = c
+			} else {
+				bs[i] = '?'
+			}
+		}
+		return string(bs)
+	}
+	return fmt.Sprint(v)
 }
 
 func deepSymAny(v value) bool {
